@@ -1,12 +1,14 @@
 ----------------------------- MODULE MC_SyncExp -----------------------------
 EXTENDS SyncExp, Json, SequencesExt
-CONSTANTS H, F, ForkAt, CpHs, MaxEnv, MaxRaw, Emit, Scenario
-ParV == [b \in 1 .. (H + F) |-> IF b <= H THEN b - 1 ELSE IF b = H + 1 THEN ForkAt ELSE b - 1]
+CONSTANTS H, F, ForkAt, F2, ForkAt2, CpHs, MaxEnv, MaxRaw, Emit, Scenario
+\* honest chain 1..H; a branch H+1..H+F leaving it after height ForkAt; optionally a second branch H+F+1..H+F+F2 after ForkAt2
+ParV == [b \in 1 .. (H + F + F2) |-> IF b <= H THEN b - 1 ELSE IF b = H + 1 THEN ForkAt
+                                       ELSE IF b <= H + F THEN b - 1 ELSE IF b = H + F + 1 THEN ForkAt2 ELSE b - 1]
 CpsV == {h \in CpHs : h <= H}
 VARIABLES hist, nenv, ign     \* ign: an inv announcement was ignored earlier in this history (sticky: the engine then
                               \* believes it is level with the node, and a header announced later is stored as an orphan for good)
 mxvars == <<xvars, hist, nenv, ign>>
-NB == H + F
+NB == H + F + F2
 StV == [k \in 1 .. (NB + 1) |-> IF (k - 1) \in DOMAIN rows' THEN rows'[k - 1].st ELSE "-"]
 Obs == [sent |-> xsent', tip |-> TipOf(rows'), st |-> StV, conn |-> conn', kind |-> "x"]
 NRaw == Cardinality({k \in 1 .. Len(hist) : "raw" \in DOMAIN hist[k]})
